@@ -282,4 +282,96 @@ theorem defining_range_counterexample :
     Legacy.Hash.definingRange [(.int 5, 1), (.str "ab", 2), (.int 7, 3)] = [(.int 5, 1), (.int 5, 2), (.int 7, 3)] := by
   decide
 
+/-! ### the map laws a script relies on, stated on the model itself
+
+`refines` says the implementation is the association list; these say, without the reader having
+to run the list in their head, what a script may assume about ONE key across an arbitrary history
+of operations on OTHER keys (collisions and aliases included). -/
+
+/-- does this builtin write the key `k` (in any spelling that compares equal)? -/
+def touches (o : KeyOps K) (k : K) : Op K V → Bool
+  | .hset k' _ => o.keq k'.norm k
+  | .hdel k' => o.keq k'.norm k
+  | _ => false
+
+/-- read-after-write, one step -/
+theorem get_after_set (L : KeyLaws o) (h : Hash K V) (k k' : K) (v : V) :
+    get? o (set o h k v) k' = if o.keq k k' then some v else get? o h k' := get?_set L h k k' v
+
+theorem get_after_del (L : KeyLaws o) (h : Hash K V) (I : Inv o h) (k k' : K) :
+    get? o (del o h k) k' = if o.keq k k' then none else get? o h k' := get?_del L h k k' I.bucketPw
+
+/-- **a key nobody writes keeps its binding through every history** — whatever else is set,
+deleted (same bucket or not), listed, printed or encoded meanwhile -/
+theorem get_stable (L : KeyLaws o) (sh : Show K V) (k : K) (ops : List (Op K V)) (h : Hash K V) (I : Inv o h)
+    (hnt : ∀ op ∈ ops, touches o k op = false) :
+    get? o (exec o sh h ops) k = get? o h k := by
+  induction ops generalizing h with
+  | nil => rfl
+  | cons op rest ih =>
+    have hop : touches o k op = false := hnt op (List.mem_cons_self ..)
+    have hrest : ∀ op' ∈ rest, touches o k op' = false := fun op' hm => hnt op' (List.mem_cons_of_mem _ hm)
+    simp only [exec]
+    rw [ih _ (inv_step L sh h I op) hrest]
+    cases op with
+    | hset k' v' => simp only [touches] at hop; simp [step, get_after_set L, hop]
+    | hdel k' => simp only [touches] at hop; simp [step, get_after_del L h I, hop]
+    | _ => rfl
+
+/-- **the latest write wins**: after `hset k v`, any history that does not write `k` again, then
+`hget k` (in any spelling `k'` of the key) answers `v` -/
+theorem latest_write_wins (L : KeyLaws o) (sh : Show K V) (k : RKey K) (v : V) (k' : RKey K)
+    (hq : o.keq k.norm k'.norm = true)
+    (ops : List (Op K V)) (h : Hash K V) (I : Inv o h)
+    (hnt : ∀ op ∈ ops, touches o k'.norm op = false) :
+    (step o sh (exec o sh h (.hset k v :: ops)) (.hget k')).2 = .val v := by
+  have I1 : Inv o (step o sh h (.hset k v)).1 := inv_step L sh h I _
+  have := get_stable L sh k'.norm ops _ I1 hnt
+  simp only [exec, step] at this ⊢
+  rw [this, get_after_set L, hq]; rfl
+
+/-- … and a deleted key stays gone until somebody sets it again -/
+theorem deleted_stays_gone (L : KeyLaws o) (sh : Show K V) (k k' : RKey K)
+    (hq : o.keq k.norm k'.norm = true)
+    (ops : List (Op K V)) (h : Hash K V) (I : Inv o h)
+    (hnt : ∀ op ∈ ops, touches o k'.norm op = false) :
+    (step o sh (exec o sh h (.hdel k :: ops)) (.hget k')).2 = .err := by
+  have I1 : Inv o (step o sh h (.hdel k)).1 := inv_step L sh h I _
+  have := get_stable L sh k'.norm ops _ I1 hnt
+  simp only [exec, step] at this ⊢
+  rw [this, get_after_del L h I, hq]; rfl
+
+/-- overwriting keeps the key's place in `keys`; a new key goes last -/
+theorem overwrite_keeps_place (h : Hash K V) (k : K) (v : V) (hs : (get? o h k).isSome = true) :
+    (set o h k v).keyOrder = h.keyOrder := by simp [set_keyOrder, hs]
+
+theorem insert_goes_last (h : Hash K V) (k : K) (v : V) (hn : get? o h k = none) :
+    (set o h k v).keyOrder = h.keyOrder ++ [k] := by simp [set_keyOrder, hn]
+
+/-- delete, then set again: the key moves to the end, everything else keeps its order -/
+theorem reinsert_moves_last (L : KeyLaws o) (h : Hash K V) (I : Inv o h) (k : K) (v : V)
+    (hs : (get? o h k).isSome = true) :
+    (set o (del o h k) k v).keyOrder = koRemove o h.keyOrder k ++ [k] := by
+  rw [set_keyOrder, get_after_del L h I, L.refl]
+  simp [del_keyOrder, hs]
+
+/-- no builtin reorders the keys that stay: `hdel` leaves a sublist, `hset` an extension -/
+theorem del_keeps_relative_order (h : Hash K V) (k : K) : (del o h k).keyOrder.Sublist h.keyOrder := by
+  rw [del_keyOrder]; split
+  · exact koRemove_sublist _ _
+  · exact List.Sublist.refl _
+
+theorem set_keeps_relative_order (h : Hash K V) (k : K) (v : V) : h.keyOrder <+: (set o h k v).keyOrder := by
+  rw [set_keyOrder]; split
+  · exact List.prefix_refl _
+  · exact List.prefix_append _ _
+
+/-- the hypotheses are met by a real history with a code collision and an alias:
+`x` is set, then the char `'x'`'s alias `[120]` and two other keys are written and one deleted -/
+example : (step keyOps keyShow
+    (exec keyOps keyShow Hash.empty
+      [.hset (.plain (.sym "x" 120)) 7, .hset (.plain (.int 120)) 1, .hset (.plain (.str "x")) 2, .hdel (.arr1 (.int 120)), .keys])
+    (.hget (.plain (.sym "x" 120)))).2 = .val 7 := by decide
+
+
 end ZygoVerif.Hash
